@@ -56,7 +56,7 @@ def run(ctx):
             if not ctx.cov["samples"] and name.startswith("exhaustive"):
                 ctx.cov["samples"] = open(tr).read().splitlines()[:14]
         # shortest failing stream first: that is the replay
-        ctx.monitor_fail.sort(key=lambda m: (m["case"].count("\n"), m["case"]))
+        ctx.monitor_fail.sort(key=lambda m: (m["case"].count("\n"), "eof => " not in m["case"], len(m["case"]), m["case"]))
         # the real transport (grpc.Server on a unix socket in a child process): informational, plus the one thing the
         # in-memory stream cannot show — that a handler panic terminates the sidecar process
         if not ctx.replay:
